@@ -277,18 +277,18 @@ func c01Real(w *W) {
 	addr := ""
 	switch tran {
 	case "tcp":
-		addr = fmt.Sprintf("tcp://127.0.0.1:%d", port)
+		addr = fmt.Sprintf("tcp://%s:%d", loopIP, port)
 	case "ipc":
 		addr = fmt.Sprintf("ipc://%s/verif-c01-%d-%d.sock", os.TempDir(), os.Getpid(), w.RunIdx)
 		w.OnCleanup(func() { os.Remove(addr[len("ipc://"):]) })
 	case "tls+tcp":
-		addr = fmt.Sprintf("tls+tcp://127.0.0.1:%d", port)
+		addr = fmt.Sprintf("tls+tcp://%s:%d", loopIP, port)
 		lopts = map[string]interface{}{mangos.OptionTLSConfig: srv}
 		dopts = map[string]interface{}{mangos.OptionTLSConfig: cli}
 	case "ws":
-		addr = fmt.Sprintf("ws://127.0.0.1:%d/verif", port)
+		addr = fmt.Sprintf("ws://%s:%d/verif", loopIP, port)
 	case "wss":
-		addr = fmt.Sprintf("wss://127.0.0.1:%d/verif", port)
+		addr = fmt.Sprintf("wss://%s:%d/verif", loopIP, port)
 		lopts = map[string]interface{}{mangos.OptionTLSConfig: srv}
 		dopts = map[string]interface{}{mangos.OptionTLSConfig: cli}
 	}
@@ -300,6 +300,6 @@ func c01Real(w *W) {
 }
 
 func init() {
-	register(&Scenario{Name: "bytes-sim", Prop: "C01", Horizon: time.Hour, Weight: 15, Run: c01Sim})
-	register(&Scenario{Name: "bytes-real-transports", Prop: "C01", Engine: "R", Weight: 1, Run: c01Real})
+	register(&Scenario{Name: "bytes-sim", Prop: "C01", Horizon: time.Hour, Weight: 60, Run: c01Sim})
+	register(&Scenario{Name: "bytes-real-transports", Prop: "C01", Engine: "R", Weight: 4, Run: c01Real})
 }
